@@ -197,3 +197,58 @@ func checkVersionLists(c *vlib.Check, evals *int64) {
 	}
 	c.Set("version_list_histories", pairs)
 }
+
+// checkVersionedHelpers: the Check* helpers that take a value AND a version combine "declared" with
+// "defined for that version": for every declared value and every declared version the helper must
+// agree with the capability table written from the specs, and an undeclared value is refused on
+// every version.
+func checkVersionedHelpers(c *vlib.Check, evals *int64) {
+	const y, n = true, false
+	type row struct {
+		helper string
+		value  string
+		have   [6]bool
+		check  func(v p.ProtocolVersion) error
+	}
+	var rows []row
+	add := func(helper, value string, have [6]bool, check func(v p.ProtocolVersion) error) {
+		rows = append(rows, row{helper, value, have, check})
+	}
+	never := T(n, n, n, n, n, n)
+	for _, t := range []struct {
+		t    p.SchemaChangeTarget
+		have [6]bool
+	}{{p.SchemaChangeTargetKeyspace, T(y, y, y, y, y, y)}, {p.SchemaChangeTargetTable, T(y, y, y, y, y, y)}, {p.SchemaChangeTargetType, T(n, y, y, y, y, y)},
+		{p.SchemaChangeTargetFunction, T(n, n, y, y, y, y)}, {p.SchemaChangeTargetAggregate, T(n, n, y, y, y, y)}, {p.SchemaChangeTarget("VIEW"), never}, {p.SchemaChangeTarget(""), never}} {
+		t := t
+		add("CheckValidSchemaChangeTarget", string(t.t), t.have, func(v p.ProtocolVersion) error { return p.CheckValidSchemaChangeTarget(t.t, v) })
+	}
+	for _, t := range []struct {
+		t    p.TopologyChangeType
+		have [6]bool
+	}{{p.TopologyChangeTypeNewNode, T(y, y, y, y, y, y)}, {p.TopologyChangeTypeRemovedNode, T(y, y, y, y, y, y)}, {p.TopologyChangeType("NEW"), never}, {p.TopologyChangeType(""), never}} {
+		t := t
+		add("CheckValidTopologyChangeType", string(t.t), t.have, func(v p.ProtocolVersion) error { return p.CheckValidTopologyChangeType(t.t, v) })
+	}
+	for _, t := range []struct {
+		t    p.DseRevisionType
+		have [6]bool
+	}{{p.DseRevisionTypeCancelContinuousPaging, T(n, n, n, n, y, y)}, {p.DseRevisionTypeMoreContinuousPages, T(n, n, n, n, n, y)}, {p.DseRevisionType(0), never}, {p.DseRevisionType(3), never}, {p.DseRevisionType(0xFFFFFFFF), never}} {
+		t := t
+		add("CheckValidDseRevisionType", fmt.Sprint(uint64(t.t)), t.have, func(v p.ProtocolVersion) error { return p.CheckValidDseRevisionType(t.t, v) })
+	}
+	for _, r := range rows {
+		for i, v := range versions {
+			*evals++
+			var err error
+			if pv, site := vlib.Catch(func() { err = r.check(v) }); pv != nil {
+				c.Violation(map[string]string{"kind": "capability-panic", "feature": r.helper, "site": site}, fmt.Sprintf("%s(%s, %v) panics: %v", r.helper, r.value, v, pv), nil)
+				continue
+			}
+			if (err == nil) != r.have[i] {
+				c.Violation(map[string]string{"kind": "versioned-check-mismatch", "helper": r.helper, "version": v.String()}, fmt.Sprintf("%s(%q, %v) returns err=%v; the specification of that version %s this value", r.helper, r.value, v, err, map[bool]string{true: "defines", false: "does not define"}[r.have[i]]), map[string]interface{}{"helper": r.helper, "value": r.value, "version": uint8(v)})
+			}
+		}
+	}
+	c.Set("versioned_check_cells", len(rows)*len(versions))
+}
